@@ -440,18 +440,21 @@ package loadbalancer
 //@            metrics.BackendMetrics.FailedRequests, metrics.BackendMetrics.AverageResponseTime, metrics.Metrics.SuccessfulRequests, metrics.Metrics.FailedRequests, metrics.Metrics.avgResponseTimeBits
 
 //@ func (*LoadBalancer).proxyRequest
-//@   props C07 C13
+//@   props C01 C07 C13
 //@   may_panic
 //@   requires backend != nil && backend.ReverseProxy != nil && reqOK(lb, r) && lbOK(lb) && idle(lb) && bmCellsOK(lb.metricsCollector) && passiveOK(lb) && below2to63(lb)
 //@   ensures gauge_restored: backend.ActiveConnections == old(backend.ActiveConnections)
 //@   ensures one_outcome: outcomes(lb) == old(outcomes(lb)) + 1 && mtx(lb).RateLimitedRequests == old(mtx(lb).RateLimitedRequests)
 //@   ensures server_error_is_a_failure: (result != nil) == (mtx(lb).FailedRequests == old(mtx(lb).FailedRequests) + 1)
 //@   ensures error_is_sentinel: result == nil || result == errBackendFailure
+//@   ensures handed_to_the_backend_proxy_exactly_once_unchanged: proxied == old(proxied) + 1 && lastProxiedReq == ptr(r)
+//@             && asptr(lastProxiedWriter, *responseWriter).ResponseWriter == w
+//@   ensures_panic handed_over_once_before_abort: proxied == old(proxied) + 1 && lastProxiedReq == ptr(r)
 //@   ensures kept: bmCellsOK(lb.metricsCollector) && passiveOK(lb) && mtx(lb).TotalRequests == old(mtx(lb).TotalRequests)
 //@   ensures_panic gauge_restored_on_abort: backend.ActiveConnections == old(backend.ActiveConnections)
 //@   ensures_panic aborted_counts_as_failed: mtx(lb).FailedRequests == old(mtx(lb).FailedRequests) + 1 && outcomes(lb) == old(outcomes(lb)) + 1
 //@   ensures_panic kept_on_abort: bmCellsOK(lb.metricsCollector) && passiveOK(lb) && mtx(lb).TotalRequests == old(mtx(lb).TotalRequests)
-//@   modifies backend.ActiveConnections, Backend.IsHealthy, Backend.UnhealthyUntil, mapof(lb.healthChecks.unhealthyBackends), mapof(lb.metricsCollector.metrics.BackendMetrics),
+//@   modifies proxied, lastProxiedReq, lastProxiedWriter, http.ResponseWriter.ceAtCommit, http.ResponseWriter.clAtCommit, backend.ActiveConnections, Backend.IsHealthy, Backend.UnhealthyUntil, mapof(lb.healthChecks.unhealthyBackends), mapof(lb.metricsCollector.metrics.BackendMetrics),
 //@            metrics.BackendMetrics.IsHealthy, metrics.BackendMetrics.LastHealthCheck, metrics.BackendMetrics.TotalRequests, metrics.BackendMetrics.SuccessfulRequests,
 //@            metrics.BackendMetrics.FailedRequests, metrics.BackendMetrics.AverageResponseTime, metrics.BackendMetrics.ActiveConnections, metrics.Metrics.SuccessfulRequests,
 //@            metrics.Metrics.FailedRequests, metrics.Metrics.avgResponseTimeBits, responseWriter.statusCode, http.ResponseWriter.committed, http.ResponseWriter.status,
@@ -471,7 +474,7 @@ package loadbalancer
 //@   ensures kept: bmCellsOK(lb.metricsCollector) && passiveOK(lb) && mtx(lb).TotalRequests == old(mtx(lb).TotalRequests)
 //@   ensures_panic aborted_counts_as_failed: mtx(lb).FailedRequests == old(mtx(lb).FailedRequests) + 1 && outcomes(lb) == old(outcomes(lb)) + 1
 //@   ensures_panic kept_on_abort: mtx(lb).TotalRequests == old(mtx(lb).TotalRequests) && mtx(lb).RateLimitedRequests == old(mtx(lb).RateLimitedRequests)
-//@   modifies hashedKey, Backend.ActiveConnections, Backend.IsHealthy, Backend.UnhealthyUntil, RoundRobinStrategy.current, weightedBackend.currentWeight,
+//@   modifies proxied, lastProxiedReq, lastProxiedWriter, http.ResponseWriter.ceAtCommit, http.ResponseWriter.clAtCommit, hashedKey, Backend.ActiveConnections, Backend.IsHealthy, Backend.UnhealthyUntil, RoundRobinStrategy.current, weightedBackend.currentWeight,
 //@            mapof(lb.healthChecks.unhealthyBackends), mapof(lb.metricsCollector.metrics.BackendMetrics),
 //@            metrics.BackendMetrics.IsHealthy, metrics.BackendMetrics.LastHealthCheck, metrics.BackendMetrics.TotalRequests, metrics.BackendMetrics.SuccessfulRequests,
 //@            metrics.BackendMetrics.FailedRequests, metrics.BackendMetrics.AverageResponseTime, metrics.BackendMetrics.ActiveConnections, metrics.Metrics.SuccessfulRequests,
@@ -503,3 +506,27 @@ package loadbalancer
 //@   ensures every_request_counted_once: mtx(lb).TotalRequests == old(mtx(lb).TotalRequests) + 1 && outcomes(lb) == old(outcomes(lb)) + 1
 //@   ensures_panic aborted_request_counted_once: mtx(lb).TotalRequests == old(mtx(lb).TotalRequests) + 1 && outcomes(lb) == old(outcomes(lb)) + 1
 //@   modifies *
+
+// ---- the balancer's response-writer wrapper (C01 transparency of the glue, C20 upgrade support)
+//@ forwards responseWriter : http.Flusher, http.Hijacker props C01 C20
+//@ func (*responseWriter).WriteHeader
+//@   props C01
+//@   requires rw.ResponseWriter != nil
+//@   ensures same_status_forwarded: rw.statusCode == statusCode && (!old(rw.ResponseWriter.committed) ==> rw.ResponseWriter.committed && rw.ResponseWriter.status == statusCode)
+//@   ensures body_untouched: rw.ResponseWriter.bodyLen == old(rw.ResponseWriter.bodyLen)
+//@   modifies rw.statusCode, http.ResponseWriter.committed, http.ResponseWriter.status, http.ResponseWriter.ceAtCommit, http.ResponseWriter.clAtCommit
+//@ func (*responseWriter).Flush
+//@   props C01
+//@   requires rw.ResponseWriter != nil
+//@   ensures flush_forwarded: implements(rw.ResponseWriter, http.Flusher) ==> rw.ResponseWriter.flushes == old(rw.ResponseWriter.flushes) + 1
+//@   ensures nothing_else: rw.ResponseWriter.bodyLen == old(rw.ResponseWriter.bodyLen) && rw.statusCode == old(rw.statusCode)
+//@   modifies http.ResponseWriter.flushes, http.ResponseWriter.committed, http.ResponseWriter.status, http.ResponseWriter.ceAtCommit, http.ResponseWriter.clAtCommit
+//@ func (*responseWriter).Unwrap
+//@   props C01
+//@   ensures result == rw.ResponseWriter
+//@ func (*responseWriter).Hijack
+//@   props C20
+//@   requires rw.ResponseWriter != nil
+//@   ensures hijack_forwarded: implements(rw.ResponseWriter, http.Hijacker) && result2 == nil ==> rw.ResponseWriter.hijacked
+//@   ensures unsupported_is_an_error: !implements(rw.ResponseWriter, http.Hijacker) ==> result2 != nil
+//@   modifies http.ResponseWriter.hijacked
